@@ -95,9 +95,12 @@ class EventDecoAdapter:
         obs['mro'] = tuple(tuple(env.classes.index(c) + 1 for c in cls.__mro__ if c in env.classes)
                            for cls in env.classes)
         obs['is_handler'] = None if env.d is None else env.d.is_handler(env.inst)
-        ev = getattr(env.d, '_events', None)
-        if isinstance(ev, dict):      # white box (skipped if a refactoring removed the table)
-            obs['wb_table'] = frozenset((e, getattr(f, '__name__', '?')) for e, s in ev.items() for (_r, f) in s)
+        try:        # white box: compared only while the private table keeps the anchored shape
+            ev = env.d._events
+            obs['wb_table'] = frozenset((e, getattr(f, '__name__', '?')) for e, s in ev.items() for (_r, f) in set(s))
+        except Exception:
+            from ..replay import SKIP
+            obs['wb_table'] = SKIP
         return obs
 
     def expect(self, name, args, pre, post):
@@ -108,6 +111,6 @@ class EventDecoAdapter:
                'events': tuple(effective(post, k) for k in range(1, n + 1)),
                'mro': tuple(tuple(m) for m in post['mro']),
                'is_handler': True if post['reg'] else None}
-        if post['reg'] and hasattr(self.env.d, '_events'):
+        if post['reg']:
             exp['wb_table'] = frozenset((e, m) for (e, m, _c) in post['table'])
         return exp
